@@ -13,7 +13,7 @@ package lexer
 
 //@ pred lline(l *Lexer) = l.curLine == 1 + nl(l.input, min(l.readPosition, len(l.input)))
 // outside a tag, literal text never starts right after a backslash that belongs to the previous text
-//@ pred lhtml(l *Lexer) = l.inside || l.position == 0 || l.ch == 0 || (l.position-1 < len(l.input) && l.input[l.position-1] != '\\') ||
+//@ pred lhtml(l *Lexer) = l.inside || l.position == 0 || l.position >= len(l.input) || (l.position-1 < len(l.input) && l.input[l.position-1] != '\\') ||
 //@     (l.position+1 < len(l.input) && l.input[l.position] == '<' && l.input[l.position+1] == '%')
 //@ pred linv(l *Lexer) = l.readPosition >= 1 && l.position == l.readPosition-1 &&
 //@     (l.position < len(l.input) ==> l.ch == l.input[l.position]) &&
@@ -91,10 +91,10 @@ package lexer
 //@ requires linv(l) && l.ch == '"'
 //@ ensures inv: lprogress(l) && l.inside == old(l.inside) && fuel(l) < old(fuel(l))
 //@ ensures text: result == replaceAll(l.input[old(l.position)+1:l.position], "\\\"", "\"")
-//@ ensures ends: l.ch == '"' || l.ch == 0
+//@ ensures ends: l.ch == '"' || l.position >= len(l.input)
 //@ assigns l.ch, l.position, l.readPosition, l.curLine
 //@ loop 1: invariant linv(l) && l.input == old(l.input) && l.inside == old(l.inside) && fuel(l) <= old(fuel(l)) && l.position <= len(l.input) && position == old(l.position)+1
-//@ loop 1: invariant started: (l.position == old(l.position) && l.ch != 0) || (l.position >= position && fuel(l) < old(fuel(l)))
+//@ loop 1: invariant started: (l.position == old(l.position) && l.position < len(l.input)) || (l.position >= position && fuel(l) < old(fuel(l)))
 //@ loop 1: decreases fuel(l)
 
 // C02: a back-quoted literal is taken raw up to the next back quote
@@ -102,11 +102,11 @@ package lexer
 //@ requires linv(l) && l.ch == '`'
 //@ ensures inv: lprogress(l) && l.inside == old(l.inside) && fuel(l) < old(fuel(l))
 //@ ensures text: result == l.input[old(l.position)+1:l.position]
-//@ ensures ends: l.ch == '`' || l.ch == 0
+//@ ensures ends: l.ch == '`' || l.position >= len(l.input)
 //@ ensures raw: forall j int :: old(l.position) < j && j < l.position ==> l.input[j] != '`'
 //@ assigns l.ch, l.position, l.readPosition, l.curLine
 //@ loop 1: invariant linv(l) && l.input == old(l.input) && l.inside == old(l.inside) && fuel(l) <= old(fuel(l)) && l.position <= len(l.input) && position == old(l.position)+1
-//@ loop 1: invariant started: (l.position == old(l.position) && l.ch != 0) || (l.position >= position && fuel(l) < old(fuel(l)))
+//@ loop 1: invariant started: (l.position == old(l.position) && l.position < len(l.input)) || (l.position >= position && fuel(l) < old(fuel(l)))
 //@ loop 1: invariant raw: (forall j int :: old(l.position) < j && j < l.position ==> l.input[j] != '`') && (l.position > old(l.position) ==> l.ch != '`')
 //@ loop 1: decreases fuel(l)
 
@@ -122,11 +122,11 @@ package lexer
 //@ assigns nothing
 
 //@ func (l *Lexer) readHTML
-//@ requires linv(l) && lhtml(l) && !l.inside && l.ch != 0 && !(l.ch == '<' && peekc(l) == '%')
+//@ requires linv(l) && lhtml(l) && !l.inside && l.position < len(l.input) && !(l.ch == '<' && peekc(l) == '%')
 //@ ensures start: lhtml(l)
 //@ ensures inv: lprogress(l) && fuel(l) < old(fuel(l))
 //@ ensures nolive: forall j int :: old(l.position) <= j && j < l.position ==> !livetag(l.input, old(l.position), j)
-//@ ensures ends: l.ch == 0 || tagat(l.input, l.position)
+//@ ensures ends: l.position >= len(l.input) || tagat(l.input, l.position)
 //@ ensures text: (l.position >= 2 && l.position - 2 >= old(l.position) && l.input[l.position-1] == '\\' && l.input[l.position-2] == '\\' && tagat(l.input, l.position) &&
 //@     result == replaceAll(l.input[old(l.position):l.position-1], "\\<%", "<%")) || result == replaceAll(l.input[old(l.position):l.position], "\\<%", "<%")
 //@ assigns l.ch, l.position, l.readPosition, l.curLine, l.inside
